@@ -300,8 +300,10 @@ func (c connectUnaryServerProtocol) extractProtocolResponseHeaders(statusCode in
 		}
 		endUnmarshaller = func(_ Codec, buf *bytes.Buffer, end *responseEnd) {
 			var wireErr connectWireError
-			if err := json.Unmarshal(buf.Bytes(), &wireErr); err != nil {
-				end.err = connect.NewError(connect.CodeInternal, err)
+			if err := json.Unmarshal(buf.Bytes(), &wireErr); err != nil || wireErr.Code == 0 {
+				// not a Connect error: infer the code from the HTTP status, like a Connect client does
+				message := fmt.Sprintf("unexpected HTTP error: %d %s", statusCode, http.StatusText(statusCode))
+				end.err = connect.NewError(httpStatusCodeToRPC(statusCode), errors.New(message))
 				return
 			}
 			end.err = wireErr.toConnectError()
